@@ -23,3 +23,25 @@ def tasks(tier):
     if tier == "thorough":
         t += [(S, "free_step", dict(norb=2, nu=1, nd=1, nchol=2)), (S, "free_step", dict(norb=3, nu=2, nd=1, nchol=1))]
     return t
+
+
+def post(obs, tier, rep):
+    """native replay of the bookkeeping obligations: qr_vmap_uhf norm factors vs numpy QR on an open-shell pair of blocks"""
+    for o in obs:
+        if o["status"] == "refuted" and o["kind"] != "canary" and o["name"] in ("C05.fp.norm", "C05.fp.overlap", "C05.fp.walkers"):
+            try:
+                import numpy as np
+                from contracts import native
+                native.setup()
+                import jax.numpy as jnp
+                from ad_afqmc import linalg_utils
+                rng = np.random.default_rng(2)
+                up, dn = rng.normal(size=(2, 4, 2)) + 1j * rng.normal(size=(2, 4, 2)), rng.normal(size=(2, 4, 1)) + 1j * rng.normal(size=(2, 4, 1))
+                wk, norms = linalg_utils.qr_vmap_uhf([jnp.array(up), jnp.array(dn)])
+                ref = np.array([[np.prod(np.diag(np.linalg.qr(b[k])[1])) for k in range(2)] for b in (up, dn)])
+                dev = float(np.max(np.abs(np.abs(np.asarray(norms)) - np.abs(ref))))
+                o["replayed"] = bool(dev > 1e-10)
+                o["witness"] = dict(o.get("witness") or {}, native=dict(check="|norm factors| of qr_vmap_uhf vs |prod diag R| from numpy per spin block (open shell 2+1)", max_deviation=dev))
+            except Exception as e:   # noqa
+                o["witness"] = dict(native_error=repr(e)[:200])
+    return obs
